@@ -126,7 +126,10 @@ def via_async(ctx, chunks, boundary):
 
 def via_wsgi(ctx, chunks, form):
     from baize import wsgi
-    req = drivers.Req(method="POST", headers=[("Content-Type", MC.content_type_header(form))], chunks=chunks)
+    hdrs = [("Content-Type", MC.content_type_header(form))]
+    if sum(map(len, chunks)) % 2:  # half of the bodies declare their (accurate) length, as real clients do
+        hdrs.append(("Content-Length", str(sum(map(len, chunks)))))
+    req = drivers.Req(method="POST", headers=hdrs, chunks=chunks)
     env = drivers.to_environ(req)
     r = wsgi.Request(env)
     out = norm(r.form.multi_items())
@@ -137,7 +140,10 @@ def via_wsgi(ctx, chunks, form):
 
 def via_asgi(ctx, chunks, form):
     from baize import asgi
-    req = drivers.Req(method="POST", headers=[("Content-Type", MC.content_type_header(form))])
+    hdrs = [("Content-Type", MC.content_type_header(form))]
+    if sum(map(len, chunks)) % 2:
+        hdrs.append(("Content-Length", str(sum(map(len, chunks)))))
+    req = drivers.Req(method="POST", headers=hdrs)
     msgs = drivers.body_messages(chunks)
     box = {}
 
